@@ -154,6 +154,10 @@ def make_reaction(rng, fmt, pool, idx):
             r["tmin"], r["tmax"] = -1.0, -1.0
         elif style == "dexp":
             r["tmin_s"], r["tmax_s"] = f"{tmin / 10:.1f}d1".replace(".0d", ".d"), f"{tmax / 100:.2f}d2"
+        if rng.random() < 0.15:
+            # a lower limit of exactly zero is a limit (0 K), not "no limit"
+            r["tmin"] = 0.0
+            r["tmin_s"] = rng.choice(["0", "0.0", ">0.0", "0d0", ".GE.0", "0.d0"])
         r["expect_type"] = 999
         r["expect_num"] = {}
     return r
